@@ -301,11 +301,11 @@ type ReqData struct {
 	Typ     graphsync.RequestType
 }
 
-func (r *ReqData) ID() graphsync.RequestID       { return r.RID }
-func (r *ReqData) Root() cid.Cid                 { return r.RootCid }
-func (r *ReqData) Selector() ipld.Node           { return r.Sel }
-func (r *ReqData) Priority() graphsync.Priority  { return 0 }
-func (r *ReqData) Type() graphsync.RequestType   { return r.Typ }
+func (r *ReqData) ID() graphsync.RequestID      { return r.RID }
+func (r *ReqData) Root() cid.Cid                { return r.RootCid }
+func (r *ReqData) Selector() ipld.Node          { return r.Sel }
+func (r *ReqData) Priority() graphsync.Priority { return 0 }
+func (r *ReqData) Type() graphsync.RequestType  { return r.Typ }
 func (r *ReqData) Extension(name graphsync.ExtensionName) (datamodel.Node, bool) {
 	n, ok := r.Exts[name]
 	return n, ok
@@ -317,9 +317,9 @@ type RespData struct {
 	Exts map[graphsync.ExtensionName]datamodel.Node
 }
 
-func (r *RespData) RequestID() graphsync.RequestID         { return r.RID }
-func (r *RespData) Status() graphsync.ResponseStatusCode   { return r.Code }
-func (r *RespData) Metadata() graphsync.LinkMetadata       { return nil }
+func (r *RespData) RequestID() graphsync.RequestID       { return r.RID }
+func (r *RespData) Status() graphsync.ResponseStatusCode { return r.Code }
+func (r *RespData) Metadata() graphsync.LinkMetadata     { return nil }
 func (r *RespData) Extension(name graphsync.ExtensionName) (datamodel.Node, bool) {
 	n, ok := r.Exts[name]
 	return n, ok
@@ -356,8 +356,10 @@ type Actions struct {
 type InReqActions struct{ Actions }
 
 func (a *InReqActions) AugmentContext(func(reqCtx context.Context) context.Context) { a.AugmentedCtx++ }
-func (a *InReqActions) SendExtensionData(e graphsync.ExtensionData)                  { a.SentExts = append(a.SentExts, e) }
-func (a *InReqActions) UsePersistenceOption(name string)                             { a.Persistence = append(a.Persistence, name) }
+func (a *InReqActions) SendExtensionData(e graphsync.ExtensionData) {
+	a.SentExts = append(a.SentExts, e)
+}
+func (a *InReqActions) UsePersistenceOption(name string) { a.Persistence = append(a.Persistence, name) }
 func (a *InReqActions) UseLinkTargetNodePrototypeChooser(traversal.LinkTargetNodePrototypeChooser) {
 }
 func (a *InReqActions) TerminateWithError(err error) { a.Terminated = append(a.Terminated, err) }
@@ -367,13 +369,17 @@ func (a *InReqActions) MaxLinks(n uint64)            { a.MaxLinksSet = append(a.
 
 type OutBlockActions struct{ Actions }
 
-func (a *OutBlockActions) SendExtensionData(e graphsync.ExtensionData) { a.SentExts = append(a.SentExts, e) }
-func (a *OutBlockActions) TerminateWithError(err error)                { a.Terminated = append(a.Terminated, err) }
-func (a *OutBlockActions) PauseResponse()                              { a.Paused++ }
+func (a *OutBlockActions) SendExtensionData(e graphsync.ExtensionData) {
+	a.SentExts = append(a.SentExts, e)
+}
+func (a *OutBlockActions) TerminateWithError(err error) { a.Terminated = append(a.Terminated, err) }
+func (a *OutBlockActions) PauseResponse()               { a.Paused++ }
 
 type OutReqActions struct{ Actions }
 
-func (a *OutReqActions) UsePersistenceOption(name string) { a.Persistence = append(a.Persistence, name) }
+func (a *OutReqActions) UsePersistenceOption(name string) {
+	a.Persistence = append(a.Persistence, name)
+}
 func (a *OutReqActions) UseLinkTargetNodePrototypeChooser(traversal.LinkTargetNodePrototypeChooser) {
 }
 func (a *OutReqActions) MaxLinks(n uint64) { a.MaxLinksSet = append(a.MaxLinksSet, n) }
@@ -395,6 +401,8 @@ func (a *InBlockActions) PauseRequest() { a.PausedReq++ }
 
 type ReqUpdatedActions struct{ Actions }
 
-func (a *ReqUpdatedActions) TerminateWithError(err error)                { a.Terminated = append(a.Terminated, err) }
-func (a *ReqUpdatedActions) SendExtensionData(e graphsync.ExtensionData) { a.SentExts = append(a.SentExts, e) }
-func (a *ReqUpdatedActions) UnpauseResponse()                            { a.Unpaused++ }
+func (a *ReqUpdatedActions) TerminateWithError(err error) { a.Terminated = append(a.Terminated, err) }
+func (a *ReqUpdatedActions) SendExtensionData(e graphsync.ExtensionData) {
+	a.SentExts = append(a.SentExts, e)
+}
+func (a *ReqUpdatedActions) UnpauseResponse() { a.Unpaused++ }
